@@ -19,7 +19,7 @@ TRICKY = ['0*1', '1*0', 'a*b', 'b*a', 'aux0,1', 'aux1,0', 'auxa,b', '_0*1', '0*1
 POOL = [0, 1, 2, 3, 'a', 'b', 'c', ('t', 1), ('t', 2), 'x0', 5, 7]
 
 
-def rand_poly(rng, tier, nmax=6, dmax=5, tmax=7):
+def rand_poly(rng, tier, nmax=6, dmax=5, tmax=7, namesakes=3):
     n = rng.randint(3, nmax)
     pool = list(POOL)
     rng.shuffle(pool)
@@ -49,14 +49,40 @@ def rand_poly(rng, tier, nmax=6, dmax=5, tmax=7):
         else:
             t = rng.sample(labels, k)
         rng.shuffle(t)
-        if rng.random() < 0.2:      # repeated variable
-            t.insert(rng.randrange(len(t) + 1), rng.choice(t))
-            if rng.random() < 0.3:
-                t.insert(rng.randrange(len(t) + 1), rng.choice(t))
+        if rng.random() < 0.25:     # repeated variables: multiplicity 2..6 (x^k = x ; s^k = s or 1 by parity)
+            for _r in range(1 if rng.random() < 0.7 else 2):
+                x = rng.choice(t)
+                for _e in range(rng.choice([1, 1, 2, 3, 3, 4, 5])):
+                    t.insert(rng.randrange(len(t) + 1), x)
         b = rng.dyadic(8, 2)
         if b == 0 and rng.random() < 0.7:
             b = Fraction(1)
         terms.append([[enc_label(x) for x in t], str(b)])
+    # variables that carry the very names the reduction invents for a pair of some higher-order term
+    # ('u*v', 'v*u', '_u*v', 'auxu,v', ...) but occur only in terms of degree <= 2 - e.g. the output of an
+    # earlier reduction fed back in together with new higher-order terms
+    if namesakes and rng.random() < 0.4:
+        pairs = []
+        for t, _b in terms:
+            vs = list(dict.fromkeys(dec_label(x) for x in t))
+            if len(vs) >= 3:
+                pairs += [(vs[i], vs[j]) for i in range(len(vs)) for j in range(i + 1, len(vs))]
+        rng.shuffle(pairs)
+        names = []
+        for u, v in pairs[:rng.randint(1, namesakes)]:
+            both = rng.random() < 0.7
+            form = rng.choice(['{}*{}', '{}*{}', '{}*{}', '_{}*{}', 'aux{},{}'])
+            names.append(form.format(u, v))
+            if both:
+                names.append(form.format(v, u))
+        names = [x for x in dict.fromkeys(names) if x not in labels][:2 * namesakes]
+        for x in names:
+            if rng.random() < 0.6:
+                terms.append([[x], str(rng.dyadic(8, 2) or Fraction(1))])
+            if rng.random() < 0.6:
+                terms.append([[x, enc_label(rng.choice(labels))], str(rng.dyadic(8, 2) or Fraction(1))])
+            elif not any(t == [x] for t, _b in terms):
+                terms.append([[x], "1"])
     # drop exact duplicate keys (a python dict cannot hold them)
     seen, out = set(), []
     for t, b in terms:
@@ -71,8 +97,12 @@ def gen_case(rng, tier):
     kind = rng.choice(KINDS)
     big = tier == 'thorough'
     if kind == 'hoc':
-        vartype, terms = rand_poly(rng, tier, nmax=4, dmax=4, tmax=4)
-        return {"kind": kind, "vartype": vartype, "terms": terms,
+        vartype, terms = rand_poly(rng, tier, nmax=4, dmax=4, tmax=4, namesakes=1)
+        child = rng.choice(['f64', 'f64', 'f32', 'int', 'int'])
+        if child == 'f32':
+            # a constant that float64 holds exactly and float32 does not
+            terms = [t for t in terms if t[0]] + [[[], str(2 ** 24 + 1 + rng.randint(0, 6) * 2)]]
+        return {"kind": kind, "vartype": vartype, "terms": terms, "child": child,
                 "api": rng.choice(['poly', 'poly', 'hising' if vartype == 'SPIN' else 'hubo']),
                 "strength": rng.choice(STRENGTHS),
                 "keep": rng.choice([True, False, None]), "discard": rng.choice([True, False, None]),
@@ -84,6 +114,24 @@ def gen_case(rng, tier):
     if kind == 'reduce':
         c["aseed"] = rng.randrange(1 << 30)
     return c
+
+
+class CastChild(dimod.Sampler):
+    """ExactSolver whose sample set carries its energies in another dtype (float32 / integers), as
+    samplers that evaluate in reduced precision or return placeholder energies do"""
+    parameters = None
+    properties = None
+
+    def __init__(self, dtype):
+        self.dtype = dtype
+        self.parameters = {}
+        self.properties = {}
+
+    def sample(self, bqm, **kwargs):
+        ss = dimod.ExactSolver().sample(bqm)
+        rec = ss.record
+        return dimod.SampleSet.from_samples((rec.sample, list(ss.variables)), energy=rec.energy.astype(self.dtype),
+                                            vartype=ss.vartype, num_occurrences=rec.num_occurrences)
 
 
 def raw_dict(c):
@@ -209,9 +257,11 @@ def run_case(c):
         kw["discard_unsatisfied"] = c["discard"]
     keep = bool(c["keep"])            # default False
     discard = bool(c["discard"])      # default False
-    sampler = dimod.HigherOrderComposite(dimod.ExactSolver())
+    child = c.get("child", "f64")
+    sampler = dimod.HigherOrderComposite(dimod.ExactSolver() if child == 'f64' else
+                                         CastChild(np.float32 if child == 'f32' else np.int64))
     api = c["api"]
-    feats.update(api=api, keep=c["keep"], discard=c["discard"])
+    feats.update(api=api, keep=c["keep"], discard=c["discard"], child=child)
     nvars0 = len(dimod.BinaryPolynomial(raw, vt).variables)
     try:
         if api == 'poly':
